@@ -679,6 +679,22 @@ def call_module(it, fv, args, kwargs):
         raise Unsupported('np.sum form')
     if name == 'dot':
         return it.matmul(args[0], args[1])
+    if name == 'repeat' and len(args) == 2 and isinstance(a0, SArr) and a0.ndim == 1 and (isinstance(args[1], int) or is_int_term(args[1])):
+        # np.repeat(a, L): element k is a[k div L]
+        L = args[1]
+        g = npm.fz(a0)
+
+        def rel(k):
+            kz, lz = tz(k), tz(L)
+            if z3.is_add(kz) and kz.num_args() == 2:
+                for mi in (0, 1):
+                    m_, i_ = kz.arg(mi), kz.arg(1 - mi)
+                    if z3.is_mul(m_) and m_.num_args() == 2:
+                        for ri in (0, 1):
+                            if z3.is_int(lz) and m_.arg(1 - ri).eq(lz):
+                                return g(z3.If(z3.And(i_ >= 0, i_ < lz), m_.arg(ri), kz / lz))
+            return g(kz / lz)
+        return npm.new_arr(ctx, (scalar_arith('*', a0.n, L),), rel, a0.dtype, 'repeat')
     if name == 'einsum':
         sig = args[0]
         if sig == 'ni,ni->n' and len(args) == 3 and all(isinstance(x, SArr) and x.ndim == 2 for x in args[1:]):
@@ -744,6 +760,36 @@ def call_module(it, fv, args, kwargs):
             ctx.assume(r >= 0)
             ctx.assume(r * r == tz(to_real(x)))
             return r
+        if isinstance(a0, SArr) and a0.ndim == 1:
+            # element-wise square root: one uninterpreted function per call site with its defining facts stated for
+            # every index in range (instantiated at the index terms in play); dual numbers: eps-part d with d*2*r == im
+            g = npm.fz(a0)
+            n = a0.n
+            rf = ctx.fresh_fun('sqrtf', IntS, RealS)
+            cplx = a0.dtype == 'complex'
+            if cplx and not ctx.dual:
+                raise Unsupported('sqrt of complex array outside dual mode')
+            df = ctx.fresh_fun('dsqrtf', IntS, RealS) if cplx else None
+
+            def facts(t):
+                # (no new index terms while a universal fact is being instantiated: the operand's element function may
+                #  itself introduce witnesses, e.g. finite sums, which would feed back into the instantiation)
+                ctx.frozen_iterms += 1
+                try:
+                    x = g(t)
+                finally:
+                    ctx.frozen_iterms -= 1
+                re = to_cx(x).re if cplx else x
+                fs = [rf(t) >= 0, rf(t) * rf(t) == tz(to_real(re))]
+                if cplx:
+                    fs.append(z3.Implies(rf(t) != 0, df(t) * 2 * rf(t) == tz(to_real(to_cx(x).im))))
+                return z3.Implies(z3.And(t >= 0, t < tz(n)), z3.And(*fs))
+            ctx.add_universal(facts)
+
+            def el(i):
+                ctx.add_iterm(tz(i))
+                return Cx(rf(tz(i)), df(tz(i))) if cplx else rf(tz(i))
+            return npm.new_arr(ctx, a0.shape, el, 'complex' if cplx else 'real', 'sqrt')
         if is_arr(a0):
             raise Unsupported('sqrt of array')
         if isinstance(a0, Cx):
